@@ -218,6 +218,9 @@ def run(eng: Engine, ck: Check):
 
     from . import defs
     defs.shared_item_lookups(eng, ck, 'R-C08-GATE')
+    # a file is gated by the share mode of the directory it is FILED under; filing uses the containment predicates
+    from .c07 import containment_rules
+    containment_rules(eng, ck, 'R-C08-GATE')
 
     # ---- R-C08-CASE: needle and haystack agree on case normalisation
     tests = []
@@ -412,3 +415,6 @@ def run(eng: Engine, ck: Check):
               '(a request arriving while the cycle is suspended must survive for the next cycle)', bad is None,
               f'flags read at line {bad[0].lineno} and cleared at line {st.lineno} with a suspension at line {bad[1].lineno} between them: '
               'a SHARES_CHANGE request made during that window is wiped' if bad else '', construct='flags snapshot-and-clear atomic')
+    from . import defs as _d08
+    _d08.enum_members_distinct(eng, ck, 'R-C08-GATE', [('BlockingFlag', 'user/model.py'), ('DirectoryShareMode', 'shares/model.py'), ('_RequestFlag', TM), ('AbortReason', 'transfer/model.py')], 'uploads are refused to users blocked for UPLOADS, listings to users blocked for SHARES; a directory is FRIENDS or USERS or EVERYONE')
+    _d08.job_raises_nothing_typed(eng, ck, 'R-C08-REEVAL', TM, 'TransferManager._management_job', 'the job is what re-evaluates uploads after a shares / block / friends change')
